@@ -378,7 +378,25 @@ func (c *Ctx) IDEMP(rule string) []report.Obligation {
 				for _, in := range b.Instrs {
 					switch x := in.(type) {
 					case *ssa.MapUpdate:
-						if k, ok := constStr(stripMI(x.Key)); ok && isInput(x.Map) {
+						k, ok := constStr(stripMI(x.Key))
+						if !ok || !isInput(x.Map) {
+							continue
+						}
+						// filled in when ABSENT: on the miss edge of a comma-ok lookup of this key (rewriting a key that is
+						// present canonicalises a nested value and is idempotent by itself)
+						absent := factHolds(b, func(cond ssa.Value, val bool) bool {
+							ex, isE := cond.(*ssa.Extract)
+							if !isE || ex.Index != 1 || val {
+								return false
+							}
+							lk, isL := ex.Tuple.(*ssa.Lookup)
+							if !isL {
+								return false
+							}
+							k2, ok2 := constStr(lk.Index)
+							return ok2 && k2 == k
+						})
+						if absent {
 							defaulted[k] = true
 						}
 					case *ssa.Call:
@@ -760,5 +778,93 @@ func (c *Ctx) constKeys(v ssa.Value) []string {
 		}
 	}
 	sort.Strings(out)
+	return out
+}
+
+// ---------------------------------------------------------------------------
+// INC-7 (C06): the `.env` file of an included project directory is a default:
+// it is used when it exists and is a regular file, and otherwise the include is
+// what the pasted model would be. Only DECLARED env files can fail the include
+// for being a directory. In ApplyInclude and the helpers it hands the include
+// entry to, an error return that depends on an IsDir() test is reached only
+// where `env_file` was declared (the emptiness test of the EnvFile field is
+// decided, on the non-empty side).
+// ---------------------------------------------------------------------------
+
+func (c *Ctx) INC7(rule string) []report.Obligation {
+	var out []report.Obligation
+	root := c.P.Func("loader.ApplyInclude")
+	if root == nil {
+		return append(out, anchorViolation(rule, "loader.ApplyInclude"))
+	}
+	fns := []*ssa.Function{root}
+	for _, cs := range callSites(root, func(com *ssa.CallCommon) bool { return true }) {
+		if cal := cs.Common().StaticCallee(); cal != nil && c.P.InModule(cal) && cal.Blocks != nil && strings.HasPrefix(c.P.FuncID(cal), "loader.") && cal.Name() != "loadYamlModel" {
+			fns = append(fns, cal)
+		}
+	}
+	isDirCall := func(v ssa.Value) bool {
+		call, ok := v.(*ssa.Call)
+		return ok && call.Call.IsInvoke() && call.Call.Method.Name() == "IsDir"
+	}
+	declared := func(cond ssa.Value, val bool) bool {
+		bo, ok := cond.(*ssa.BinOp)
+		if !ok {
+			return false
+		}
+		var ln ssa.Value
+		zeroOther := false
+		for _, side := range [][2]ssa.Value{{bo.X, bo.Y}, {bo.Y, bo.X}} {
+			if k, isK := constInt(side[1]); isK && k == 0 {
+				ln, zeroOther = side[0], true
+			}
+		}
+		if !zeroOther {
+			return false
+		}
+		call, ok := ln.(*ssa.Call)
+		if !ok {
+			return false
+		}
+		if bi, isB := call.Call.Value.(*ssa.Builtin); !isB || bi.Name() != "len" {
+			return false
+		}
+		fr, ok := fieldLoad(call.Call.Args[0])
+		if !ok || fr.owner.Field(fr.idx).Name() != "EnvFile" {
+			return false
+		}
+		switch bo.Op {
+		case token.EQL:
+			return !val
+		case token.NEQ, token.GTR:
+			return val
+		}
+		return false
+	}
+	n := 0
+	for _, fn := range fns {
+		for _, ret := range returnsOf(fn) {
+			ev := errRet(ret)
+			if isNilOrConst(ev) {
+				continue
+			}
+			// the return is taken because the path IS a directory (the fact holds on every way to it)
+			dependsOnIsDir := factHolds(ret.Block(), func(cond ssa.Value, val bool) bool { return val && isDirCall(cond) })
+			isDeclared := false
+			if !dependsOnIsDir {
+				continue
+			}
+			n++
+			if factHolds(ret.Block(), declared) {
+				isDeclared = true
+			}
+			out = append(out, verdict(isDeclared, rule, c.P.FuncID(fn)+" :: `is a directory` fails the include only for a declared env_file", c.P.InstrPos(ret),
+				"the error is reached only where the EnvFile list of the include entry is not empty", "an error return that depends on IsDir() is reached without `env_file` having been declared: the default .env of the included project directory, when it is a directory, now fails the include instead of being ignored"))
+		}
+	}
+	c.Stats[rule+".returns"] = n
+	if n == 0 {
+		out = append(out, anchorViolation(rule, "an error return of ApplyInclude that depends on IsDir()"))
+	}
 	return out
 }
